@@ -323,6 +323,8 @@ pub enum UOp {
     /// dropped), zip the two branches: min(|a|,|b|) pairs. Inside a loop whose body changes v
     /// per round, the longer side changes from round to round.
     SplitZip { m: i64, m2: i64 },
+    /// split(2), re-key the right branch, join the two branches on the key (self join).
+    SplitJoin { kind: JoinKind, local: JoinLocal, m: u32 },
     /// Change the batch mode of the current block onwards.
     Batch(BatchSpec),
 }
